@@ -73,6 +73,8 @@ for p in props:
     i = p['id']
     if i not in CLAIMED: continue
     cat, tech, text, note, ref = CLAIMED[i]
+    if i != 'C20':
+        tech += '; thorough tier adds a coverage-guided libFuzzer campaign whose input is the random stream of the same generators, judged by the same oracle'
     checks.append({
         'property_id': i,
         'quick_cmd': f'./check {i} quick',
@@ -96,7 +98,7 @@ m = {
    'add_only': True,
  },
  'engines': [
-   {'name': 'harness', 'path': '/verif/harness', 'serves_properties': sorted(CLAIMED), 'kind_free_text': 'cargo crate: proptest runners (16 shards, fixed seeds), simnet (simulated Socket + world + virtual clock), independent wire codec, per-property oracles, evidence writer'},
+   {'name': 'harness', 'path': '/verif/harness', 'serves_properties': sorted(CLAIMED), 'kind_free_text': 'cargo crate: proptest runners (16 shards, fixed seeds), cargo-fuzz bridge (libFuzzer input = generator random stream), simnet (simulated Socket + world + virtual clock), independent wire codec, per-property oracles, evidence writer'},
  ],
  'checks': checks,
  'notes': 'exit 0 = held on everything explored, 1 = VIOLATION line, 2 = inconclusive (build failure / watchdog). VERIF_SEED selects the PRNG stream; VERIF_SCALE scales case counts.',
